@@ -59,6 +59,22 @@ static inline const char *sv_back(const sv_t *s) {
   MODEL_FAIL_RET(s->n > 0, &g_dummy);
   return &g_buf[s->off + (long)(s->n - 1)];
 }
+/* by-value reads (used where the C++ expression is immediately converted to an rvalue) */
+static inline char sv_at_v(const sv_t *s, unsigned long i) {
+  MODEL_PRE(i < s->n, "string_view[i] requires i < size()");
+  MODEL_FAIL_RET(i < s->n, 0);
+  return g_buf[s->off + (long)i];
+}
+static inline char sv_front_v(const sv_t *s) {
+  MODEL_PRE(s->n > 0, "string_view::front requires !empty()");
+  MODEL_FAIL_RET(s->n > 0, 0);
+  return g_buf[s->off];
+}
+static inline char sv_back_v(const sv_t *s) {
+  MODEL_PRE(s->n > 0, "string_view::back requires !empty()");
+  MODEL_FAIL_RET(s->n > 0, 0);
+  return g_buf[s->off + (long)(s->n - 1)];
+}
 static inline void sv_remove_prefix(sv_t *s, unsigned long k) {
   MODEL_PRE(k <= s->n, "string_view::remove_prefix requires n <= size()");
 #ifndef VERIF_CBMC
@@ -93,11 +109,66 @@ static inline it_t str_end(const str_t *s) { return s->off + (long)s->n; }
 static inline it_t sv_begin(const sv_t *s) { return s->off; }
 static inline it_t sv_end(const sv_t *s) { return s->off + (long)s->n; }
 
+/* string literals bound to string_views live outside g_buf: a literal view has
+ * off <= SVLIT_BASE and its bytes come from svlit_tab (filled by
+ * __cxx_global_init from the literal text in the AST) */
+#define SVLIT_BASE (-1000000000L)
+extern const char *svlit_tab[8];
+#define DEF_SV_LITERAL(NAME, TEXT, N, K) \
+  static inline sv_t NAME(void) { sv_t r; r.off = SVLIT_BASE - (K); r.n = (N); return r; }
+static inline const char *sv_bytes(const sv_t *s) {
+  if (s->off <= SVLIT_BASE) return svlit_tab[SVLIT_BASE - s->off];
+  return g_buf + s->off;
+}
+/* basic_string_view::compare(pos, count, v): substr(pos,count).compare(v);
+ * traits_type::compare orders bytes as unsigned char.  The loop is bounded by
+ * v.size(); callers in /repo pass literals, so a fixed unwinding is complete. */
+static inline int sv_compare(const sv_t *s, unsigned long pos, unsigned long cnt, sv_t v) {
+  MODEL_PRE(pos <= s->n, "string_view::compare requires pos <= size() (else throws)");
+  MODEL_FAIL_RET(pos <= s->n, 1);
+  unsigned long rlen = (cnt < s->n - pos) ? cnt : s->n - pos;
+  unsigned long m = (rlen < v.n) ? rlen : v.n;
+  const char *a = sv_bytes(s) + pos;
+  const char *b = sv_bytes(&v);
+  for (unsigned long i = 0; i < m; i++) {
+    if (a[i] != b[i]) return ((unsigned char)a[i] < (unsigned char)b[i]) ? -1 : 1;
+  }
+  return rlen < v.n ? -1 : (rlen > v.n ? 1 : 0);
+}
+/* basic_string_view::find_first_of(ch, pos): smallest index >= pos holding ch,
+ * else npos.  Under CBMC an ASSUMED CONTRACT instead of a loop: the result is
+ * nondeterministic, constrained to be an occurrence (or npos), and "no
+ * occurrence before it" is assumed at the ghost index g_ffo_j -- an instance
+ * of the universally quantified library guarantee; the harness leaves g_ffo_j
+ * arbitrary, so facts derived through it hold for every index. */
+#ifdef VERIF_CBMC
+extern long g_ffo_j;
+unsigned long nondet_ulong(void);
+static inline unsigned long sv_find_first_of(const sv_t *s, char ch, unsigned long pos) {
+  unsigned long r = nondet_ulong();
+  __CPROVER_assume(r == SV_NPOS || (pos <= r && r < s->n && g_buf[s->off + (long)r] == ch));
+  __CPROVER_assume(!(g_ffo_j >= 0 && pos <= (unsigned long)g_ffo_j &&
+                     (unsigned long)g_ffo_j < (r == SV_NPOS ? s->n : r)) ||
+                   g_buf[s->off + g_ffo_j] != ch);
+  return r;
+}
+#else
+static inline unsigned long sv_find_first_of(const sv_t *s, char ch, unsigned long pos) {
+  for (unsigned long i = pos; i < s->n; i++) if (sv_bytes(s)[i] == ch) return i;
+  return SV_NPOS;
+}
+#endif
+
 /* const char iterator */
 static inline const char *it_deref(it_t it) {
   MODEL_PRE(g_lo <= it && it < g_hi, "iterator dereference inside [first,last)");
   MODEL_FAIL_RET(g_lo <= it && it < g_hi, &g_dummy);
   return &g_buf[it];
+}
+static inline char it_deref_v(it_t it) {
+  MODEL_PRE(g_lo <= it && it < g_hi, "iterator dereference inside [first,last)");
+  MODEL_FAIL_RET(g_lo <= it && it < g_hi, 0);
+  return g_buf[it];
 }
 static inline it_t it_add(it_t it, long d) { return it + d; }
 static inline long it_distance(it_t a, it_t b) { return b - a; }
